@@ -83,6 +83,15 @@ func (c *Ctx) N(quick int) int {
 	return n
 }
 
+// Budget: byte budget of a cases file (Coq elaborates roughly 20-25 s per MB); four times larger
+// in the thorough tier, never boosted
+func (c *Ctx) Budget(quick int) int {
+	if c.Tier == "thorough" {
+		return 4 * quick
+	}
+	return quick
+}
+
 type propFn func(c *Ctx)
 
 var props = map[string]propFn{}
